@@ -45,7 +45,7 @@ func init() {
 		Run: func(c *core.Ctx, idx int) {
 			r := c.Rand()
 			cfg := c15Configs[idx%len(c15Configs)]
-			w := map[string]int{"create": 10, "update": 8, "patch": 8, "delete": 6, "addlinks": 1, "rcinc": 1}
+			w := map[string]int{"create": 10, "update": 8, "patch": 8, "delete": 6, "deletewhere": 2, "addlinks": 1, "rcinc": 1}
 			var pre *kmodel.Model
 			runHistory(c, r, histOpts{Prefix: "C15", Cfg: cfg, NTx: 40, MaxOps: 3, Hostile: true, Weights: w, NeedDump: true,
 				AfterTx: func(e *kmodel.Engine, res *kmodel.TxResult, before, after *dump.Dump) {
